@@ -18,18 +18,36 @@ CHECKS = {
  "C04": mc("Every labelled diagram of D(s,b,Phi) and of the rule-targeted neighbourhood families x every primitive rule x every argument tuple (all vertices, all ordered pairs incl. equal, boundaries, two absent ids) x both back ends; matcher, unchecked rule and checked rule are executed and judged: accept => no panic and reference tensor preserved; reject => checked rule returns false and the graph is ==-identical; matcher verdicts are compared across back ends.",
           "quick: D(2,2,Phi8), D(3,1,Phi4), D(2,2,Phi6) boundaries-first, targeted k=1; thorough: D(3,2,Phi8), D(3,2,Phi6) boundaries-first, D(2,3,Phi6), targeted k=3.",
           "exhaustive input-space enumeration (small-scope model checking) of real rule code against a reference evaluator", "3/C04"),
+ "C07": mc("Part A: all ordered pairs of a Dyadic alphabet (boundary mantissas incl. full 64-bit / all-ones / overflowing products, boundary exponents, f64 constants) built through the public API: + - x judged against BigRational arithmetic on the raw parts (not flagged => exact and normalised; flagged => close), results re-compared against operands and zero (second-step ordering), cmp against the order of the reals, abs_diff_eq, f64 conversion wherever the value is a normal f64, f64 round trip. Part B: explicit-state BFS over Scalar4 expression histories (every public operation with every seed on either side), de-duplicated on raw parts, against the exact Z[omega][1/sqrt2] value of the expression over the stored constants: exactness of unflagged results, is_zero / is_one / exact_phase_and_sqrt2_pow, irrational constants flagged, complex_value() within 1e-12 of the represented value.",
+          "quick: 217 dyadic values (47 k pairs), scalar histories to depth 2 from 23 seeds (~180 k states); thorough: 430 values, depth 3 from 31 seeds (state cap 6 M reported). Exponents to +-1100 / sqrt2 powers to +-2001, not the i32 extremes.",
+          "exhaustive pair enumeration plus explicit-state BFS over expression histories of the real scalar types against a big-integer model", "3/C07"),
  "C08": mc("to_tensor4 and to_tensorf of every diagram of D(s,b,Phi) (closed, disconnected, bare/Hadamard wires, X spiders, isolated spiders) and of every circuit-derived diagram, and the circuit evaluator on every circuit of K(q,d,A), compared entry by entry (exactly for Tensor4 via raw parts, 1e-9 for TensorF) with the reference state sum / gate-matrix product; gates documented as unsupported must panic with that message; scalar_eq and == are judged against their definitions on all ordered pairs of small tensors.",
           "quick: D(2,2,Phi8), D(3,2,{1/4,1}), K(2,2,A_full), K(2,3,A_ct), helper pairs over 6 values; thorough: D(2,3,Phi8), D(3,2,Phi6), K(2,3,A_full), K(3,2,A_full), K(3,3,A_ct), helper pairs over 8 values (16.8 M pairs).",
           "exhaustive input-space enumeration of the real tensor evaluators against independent reference evaluators", "3/C08"),
+ "C09": mc("Explicit-state search on the real structs: state = private state of the vector and the hash back end plus name bijections; transitions = add vertex, named insertion (free / hole / range / beyond-range ids; taken ids must be refused by both), remove vertex, add / remove edge, set edge type, smart edge insertion in every type / kind combination (illegal ones must panic in both), pack(true/false), executed on both back ends and on a plain reference model; BFS runs to closure under the bound; in every state: same observable graph under the bijection, same success / failure, counts = enumerations, symmetric adjacency, find_* contract, clone equal and independent, sub-graph of every vertex subset and append agree; on top of every state every data operation (type, phase, coordinates, variables, inputs / outputs edits, scalar and scalar-factor edits, x_to_z, adjoint), every ordered pair of them on states with few live vertices, and data-then-structure sequences.",
+          "quick: <= 3 live vertices, ids <= 4: closure reached (~281 k states, 23 M transitions, BFS depth 18); thorough: <= 4 live vertices, ids <= 5 with a state cap (reported; not called exhaustive when hit). State key abstractions (adjacency order, hash-map layout, scalar value) are argued in DESIGN.md and in the source.",
+          "explicit-state BFS to closure over graph-editing histories executing both real back ends against a reference model", "3/C09"),
  "C11": mc("adjoint, plug_inputs/plug_outputs with every basis list over {Z0,Z1,X0,X1,SKIP} of every length 0..wires, plug_input/plug_output at every position and is_identity on every diagram of D(s,b,Phi); append_graph on every ordered pair and plug on every composable ordered pair of a diagram family (Hadamard boundary edges, bare wires, cups, caps); results' reference tensors compared with tensor algebra (composition, Kronecker product, conjugate transpose, contraction with basis vectors).",
           "quick: unary D(2,2,Phi4), pairs over D(1,2,{0,1/4,1}) (183 diagrams); thorough: unary D(2,3,Phi6), pairs over D(2,2,{1/4,1}) u D(1,2,Phi8) (4361 diagrams, 19 M ordered pairs).",
           "exhaustive enumeration of diagrams, diagram pairs and argument lists through the real graph operations, tensor-algebra oracle", "3/C11"),
+ "C12": mc("All ordered pairs of circuits of a small family, and for every circuit of larger families its constructed partners (itself, re-extraction, inserted cancelling pairs, commuted pair, one gate more / less, global phase -1 and i, Hadamard on a wire, wire permutation, conjugation by SWAP, extra qubit; both orders): equal_circuit_with_options (both phase modes), equal_circuit, equal_graph_with_options after no / Clifford / full simplification of one side, the tensor checkers and the dimension helpers, against exact and projective comparison of the reference unitaries: Some(true) and Some(false) must be right, None is acceptable, the tensor checker must be exactly right.",
+          "quick: pairs K(2,2,A_ct+swap) (117 k), K(1,3,A_ct) (160 k), partners K(2,3,A_ct), K(3,1,A_full), K(2,1,A_tol); thorough: + pairs K(2,2,A_full), K(3,1,A_full), partners K(3,2,A_ct), K(3,2,A_full), K(2,2,A_tol). Only unitary circuits are paired.",
+          "exhaustive enumeration of circuit pairs through the real equality checkers against a reference simulator", "3/C12"),
  "C14": mc("Every gate kind of the property's list x every ordered tuple of distinct qubits on 1..3 qubits x every reduced phase k/d, d <= 16, all gate sequences of a printable alphabet, and zero-gate circuits are printed and parsed back by the real code and compared structurally; an enumerated list of QASM texts (all register splits of <= 4 qubits into <= 3 registers, phase spellings, gate definitions, one text per unsupported construct) must parse to the expected gate list or return Err - a panic or a silently shorter gate list is a violation.",
           "quick: singles + K(2,2) sequences + texts; thorough: + K(2,3), K(3,2) sequences.",
           "exhaustive enumeration of circuits and QASM texts through the real printer/parser", "3/C14"),
  "C15": mc("For every circuit of K(q,d,A) with Toffoli/CCZ on every argument order and parity phases of arity 0..4: c + c.to_adjoint() is exactly the identity, to_basic_gates preserves the unitary exactly with exactly the advertised number of basic gates, every + / += variant composes maps in order, reverse twice restores, statistics are a partition, additive over gates and right on every unambiguous gate.",
           "quick: K(2,3,A_full), K(3,2,rich), K(4,1,rich); thorough: K(2,4,A_full), K(3,3,rich), K(4,2,rich).",
           "exhaustive enumeration of all gate sequences up to a depth, reference gate-matrix simulator as oracle", "3/C15"),
+ "C16": mc("All p/q with q <= 64, |p| <= 3q (both sign conventions): canonical representative in (-1,1], classification predicates, scaling by -5..5, negation; all ordered pairs of canonical phases for + - += -= ==; limit_denominator for all canonical phases with q <= 100 (thorough 400) x all bounds 2..64 against a brute-force closest fraction (ties to the smaller denominator) and, row by row, against python3's fractions.Fraction.limit_denominator; float round trip on dyadic and decimal grids. Oracle: BigRational arithmetic modulo 2.",
+          "quick: pairs with q <= 24 (130 k), approximation table 384 k rows; thorough: pairs with q <= 64, table q <= 400 (6.1 M rows).",
+          "exhaustive enumeration of rationals, pairs and (phase, bound) tables against big-rational and Python oracles", "3/C16"),
+ "C17": mc("Every 0/1 matrix of every shape up to 4x5 / 5x4 (thorough: + 6x4, 3x7, 2x7, 7x2 and all 2^25 5x5 matrices) and every matrix of structured larger families with colliding chunks, for every block size 1..cols and both reduction modes: rank vs brute-force row-space enumeration, (reduced) echelon shape, row space preserved, operations recorded on an identity proxy reproduce the result and transform an unrelated second object identically; inverse two-sided iff invertible (None for non-square / singular), null space annihilated / independent / of the right size; transpose, stacking, multiplication laws.",
+          "quick: all shapes with <= 20 entries + structured 5x6; thorough: as listed.",
+          "exhaustive enumeration of all matrices of small shapes through the real routines against brute-force F2 linear algebra", "3/C17"),
+ "C18": mc("For every graph of the family and every initial tree random_decomp can produce (every announced RNG draw enumerated by a scripted RngCore): explicit-state BFS to closure over {leaf swap, local swap, subtree move} x every RNG answer sequence plus width / score queries (cache content is part of the state; no canonicalisation of neighbour order); in every state: no panic, cubic tree whose leaves are exactly the vertices, is_valid_for_graph, every cached rank equals the brute-force cut rank, reported width / score = recomputed = brute force. Annealer: every draw of RankwidthAnnealer::new(..).run() enumerated for 2-3 iterations over a parameter grid: result valid and no wider than the start.",
+          "quick: closure on one graph per isomorphism class with 2..4 vertices (1.09 M states, 41 M transitions), 5 vertices BFS depth 2 on 12 classes, annealer 2 iterations; thorough: all labelled graphs with 2..4 vertices to closure, 5 vertices depth 3 (34 classes), 6 vertices depth 2, annealer 3 iterations. Needs the announce hook (H3).",
+          "explicit-state BFS to closure with exhaustive choice-tree (scripted RNG) search on the real decomposition-tree code", "3/C18"),
 }
 NOT_YET = "check not built yet in this session (work in progress; will be claimed once its explorer exists)"
 
